@@ -153,9 +153,9 @@ class RowDenoisingTransformer(BaseEstimator, TransformerMixin):
             if X.count_nonzero() == 0:
                 warn("Cannot fit an empty matrix")
                 return self
-            self.background_model_ = np.squeeze(
-                np.array(X.sum(axis=0), dtype=np.float32)
-            )
+            self.background_model_ = np.array(
+                X.sum(axis=0), dtype=np.float32
+            ).reshape(-1)
         else:
             self.background_model_ = X.sum(axis=0)
 
